@@ -77,7 +77,7 @@ def observe(entry, labels, seed, n_train=14, n_test=6, refit=False, level=0.0):
             if refit and len(sorted_labels) >= 3:
                 # the same object was fitted before on data that lacks the smallest label
                 keep = [i for i, l in enumerate(ytr) if l != sorted_labels[0]]
-                clf.fit(Xtr.iloc[keep].reset_index(drop=True), ytr[keep])
+                clf.fit(Xtr[keep] if isinstance(Xtr, np.ndarray) else Xtr.iloc[keep].reset_index(drop=True), ytr[keep])
             clf.fit(Xtr, ytr)
             proba = np.asarray(clf.predict_proba(Xte))
             pred = clf.predict(Xte)
